@@ -10,3 +10,14 @@ package ion
 func (d *Decimal) VerifNegZero() bool {
 	return d.isNegZero
 }
+
+// VerifYield, when set, is called on entry to every operation that touches state shared between
+// goroutines (shared symbol tables, catalogs, struct types).  The harness uses it to record those
+// accesses and to hold a goroutine there while others run.  Set it before any goroutine starts.
+var VerifYield func(site string, obj interface{})
+
+func verifYield(site string, obj interface{}) {
+	if f := VerifYield; f != nil {
+		f(site, obj)
+	}
+}
